@@ -477,3 +477,59 @@ trimmed in raw strings.
         assert_eq!(parsed.as_deref(), Ok(expected), "Parsing {input:?}");
     }
 }
+
+#[cfg(toml_verif)]
+pub(crate) mod verif {
+    //! Add-only forwarders to file-private kernels for `crate::verif_hooks`
+    use super::*;
+
+    pub(crate) fn basic_chars_<'i>(input: &mut Input<'i>) -> ModalResult<Cow<'i, str>> {
+        basic_chars(input)
+    }
+    pub(crate) fn escaped_(input: &mut Input<'_>) -> ModalResult<char> {
+        escaped(input)
+    }
+    pub(crate) fn escape_seq_char_(input: &mut Input<'_>) -> ModalResult<char> {
+        escape_seq_char(input)
+    }
+    pub(crate) fn ml_basic_string_<'i>(input: &mut Input<'i>) -> ModalResult<Cow<'i, str>> {
+        ml_basic_string(input)
+    }
+    pub(crate) fn ml_basic_body_<'i>(input: &mut Input<'i>) -> ModalResult<Cow<'i, str>> {
+        ml_basic_body(input)
+    }
+    pub(crate) fn mlb_content_<'i>(input: &mut Input<'i>) -> ModalResult<Cow<'i, str>> {
+        mlb_content(input)
+    }
+    /// `mlb_quotes` with the in-body terminator (`none_of('"')`)
+    pub(crate) fn mlb_quotes_body_<'i>(input: &mut Input<'i>) -> ModalResult<&'i str> {
+        mlb_quotes(none_of(b'\"').value(())).parse_next(input)
+    }
+    /// `mlb_quotes` with the closing-delimiter terminator
+    pub(crate) fn mlb_quotes_end_<'i>(input: &mut Input<'i>) -> ModalResult<&'i str> {
+        mlb_quotes(ML_BASIC_STRING_DELIM.void()).parse_next(input)
+    }
+    pub(crate) fn mlb_escaped_nl_(input: &mut Input<'_>) -> ModalResult<()> {
+        mlb_escaped_nl(input)
+    }
+    pub(crate) fn ml_literal_string_<'i>(input: &mut Input<'i>) -> ModalResult<Cow<'i, str>> {
+        ml_literal_string(input)
+    }
+    pub(crate) fn ml_literal_body_<'i>(input: &mut Input<'i>) -> ModalResult<&'i str> {
+        ml_literal_body(input)
+    }
+    pub(crate) fn mll_content_(input: &mut Input<'_>) -> ModalResult<u8> {
+        mll_content(input)
+    }
+    /// `mll_quotes` with the in-body terminator (`none_of('\'')`)
+    pub(crate) fn mll_quotes_body_<'i>(input: &mut Input<'i>) -> ModalResult<&'i str> {
+        mll_quotes(none_of(APOSTROPHE).value(())).parse_next(input)
+    }
+    /// `mll_quotes` with the closing-delimiter terminator
+    pub(crate) fn mll_quotes_end_<'i>(input: &mut Input<'i>) -> ModalResult<&'i str> {
+        mll_quotes(ML_LITERAL_STRING_DELIM.void()).parse_next(input)
+    }
+    pub(crate) fn class_mll_char(b: u8) -> bool {
+        MLL_CHAR.contains_token(b)
+    }
+}
